@@ -102,7 +102,7 @@ def diff_first(a, b):
 RULES = [  # (source, target)
     (G + "G", "::ext::Plain"), (G + "G<A>", "::ext::B<A>"), (G + "G<A>", "::ext::B<::w::W<A>, ::core::primitive::u64>"), (G + "G<A>", "::ext::B<::core::primitive::u8>"),
     (G + "G<A>", "::ext::B<A, A>"), (G + "G<A>", "::ext::B<::w::W<::w::V<A>>, A>"), (G + "G<T>", "::ext::B<T, ::x::T, y::T, T<::core::primitive::u8>>"),
-    (G + "G2<A, B>", "::ext::P<B, A>"), (G + "G2<A>", "::ext::Q<A>"), (G + "G2<A, B, C>", "::ext::R<C, B, A>"), (G + "G2", "::ext::P2"), (G + "G2", "::ext::P3<::core::primitive::bool>"),
+    (G + "G2<A, B>", "::ext::P<B, A>"), (G + "G2<A>", "::ext::Q<A>"), (G + "G2<A, B>", "::ext::OnlyB<B>"), (G + "G2<A, B>", "::ext::NestB<::w::W<B>, ::core::primitive::u8>"), (G + "G2<A, B, C>", "::ext::R<C, B, A>"), (G + "G2", "::ext::P2"), (G + "G2", "::ext::P3<::core::primitive::bool>"),
     (G + "G<A>", "::ext::B<::w::W<(A, ::core::primitive::u8)>>"), (G + "G<A>", "::ext::B<::w::W<[A; 2]>>"), (G + "G<A>", "::ext::B<::w::W<&'static A>>"),
     (G + "GE<X>", "crate::ext::E<X>"), (G + "Nested<T>", "::ext::N<T>"), (G + "Nested", "::ext::N0"),
 ]
@@ -165,7 +165,8 @@ def families(eng, tier, seed):
     for k, (s, t) in enumerate(RULES): fams.append(make_family("rule-generics-%d" % k, C["generics"], [(s, t)]))
     # custom alloc crate path: resolved arguments that mention Vec/String/Box must be rendered with it
     ALLOC = Settings(["compact_path ::parity_scale_codec::Compact", "bits_path ::scale_bits::DecodedBits", "codec_attrs", "alloc ::my_alloc", "mod_name rt"])
-    for k in (1, 2, 5, 7, 16): fams.append(make_family("rule-customalloc-generics-%d" % k, C["generics"], [RULES[k]], STD=ALLOC))
+    for k, r in enumerate(RULES):
+        if r[0].startswith((G + "G<", G + "GE<", G + "Nested<", G + "G2<")): fams.append(make_family("rule-customalloc-generics-%d" % k, C["generics"], [r], STD=ALLOC))
     fams.append(make_family("rule-customalloc-reach", C["reach"], [("replay::corpus::reach::Foo<X>", "::ext::F<::w::W<X>, X>")], STD=ALLOC))
     fams.append(make_family("rule-customalloc-cow", C["cow_generic"], [(G + "CowG<Z>", "::ext::C<Z>"), (G + "G<A>", "::ext::B<A>")][:1], STD=ALLOC))
     # types with skipped parameters: the declared source parameter has no resolved argument
@@ -173,9 +174,9 @@ def families(eng, tier, seed):
     fams.append(make_family("rule-skipped-param", C["assoc_skip"], [(A + "Hdr<T>", "::ext::H<T>")]))
     fams.append(make_family("rule-skipped-param-passthrough", C["assoc_skip"], [(A + "Hdr", "::ext::H0")]))
     fams.append(make_family("rule-noskip-param", C["assoc_noskip"], [(A + "HdrNoSkip<T>", "::ext::H<T, T>")]))
-    for k in (0, 1, 7, 16): fams.append(make_family("rule-ifabsent-generics-%d" % k, C["generics"], [RULES[k]], how="subst_if_absent"))
-    for k in (2, 8, 17): fams.append(make_family("rule-extend-generics-%d" % k, C["generics"], [RULES[k]], how="subst_extend"))
-    pairs = [(0, 7), (2, 8), (1, 16), (6, 10), (3, 15)]
+    for k in (0, 1, 7, 18): fams.append(make_family("rule-ifabsent-generics-%d" % k, C["generics"], [RULES[k]], how="subst_if_absent"))
+    for k in (2, 8, 19): fams.append(make_family("rule-extend-generics-%d" % k, C["generics"], [RULES[k]], how="subst_extend"))
+    pairs = [(0, 7), (2, 8), (1, 18), (6, 12), (3, 17)]
     for a, b in pairs:
         if src_params(RULES[a][0])[0] != src_params(RULES[b][0])[0]: fams.append(make_family("rules-generics-%d+%d" % (a, b), C["generics"], [RULES[a], RULES[b]]))
     for n, rl in OTHER.items():
